@@ -20,8 +20,8 @@ EXPLANATION = ('Each operation of each integer vector type is interpreted once o
                'the same-named primitive of the element type produces in the same engine.  Enumerated from the impls rustc resolved, '
                'so all 27 types x all operations are covered; both overflow-check profiles in the thorough tier.')
 
-CONFIGS_QUICK = ['sse2']
-CONFIGS_THOROUGH = ['sse2', 'sse2-rel', 'scalar']
+CONFIGS_QUICK = ['sse2', 'scalar']
+CONFIGS_THOROUGH = ['sse2', 'sse2-rel', 'scalar', 'coresimd']
 INT_MODS = ('i8', 'u8', 'i16', 'u16', 'i32', 'u32', 'i64', 'u64', 'usize')
 
 OP_TRAITS = {'Add', 'Sub', 'Mul', 'Div', 'Rem', 'Neg', 'Not', 'BitAnd', 'BitOr', 'BitXor', 'Shl', 'Shr',
